@@ -124,10 +124,16 @@ class GensProp(props.BaseProp):
                 p = r.pick(INVALID_P)
             elif y < 30:
                 p = r.pick(SPECIAL_P)
-            elif y < 75:
+            elif y < 48:
                 p = 10.0 ** (-(r.below(1700) / 100.0))
-            else:
+            elif y < 62:
                 p = 1.0 - 10.0 ** (-(r.below(1600) / 100.0))
+            elif y < 80:
+                p = (1 + r.below(998)) / 1000.0
+            else:
+                # sparse regime: expected number of edges between ~0.5 and ~50
+                slots = max(1, nn * nn)
+                p = min(0.99, (0.5 + r.below(5000) / 100.0) / slots)
             if p_valid(p) and nn > 60:
                 # keep the in-Coq evaluation small: expected number of edges <= ~4000
                 cap = 4000.0 / (nn * nn)
